@@ -3,8 +3,8 @@
   db.Update of masswallet/db/db.go), following the Go code function by function.
 
   Trusted picture of goleveldb: a sorted map `Store` (strictly ascending list of key/value pairs);
-  `ldb.Get` = `SMap.get`, `ldb.NewIterator(util.Range{Start,Limit})` = `SMap.range` walked in
-  order, `ldb.Write(batch)` = replaying the batch's op log in order (`applyLog`), all or nothing.
+  `Get` = `SMap.get`, `NewIterator(util.Range{Start,Limit})` = `SMap.range` walked in order
+  (both on the transaction's reader `tx.r`: live database or snapshot, a `Store` either way), `ldb.Write(batch)` = replaying the batch's op log in order (`applyLog`), all or nothing.
   Go maps with string keys (`batch.puts`, `batch.deletes`) are `SMap`s too; wherever the code
   ranges over a Go map the iteration order is unspecified in Go – the model walks in ascending key
   order and the harness sorts such results.
@@ -104,7 +104,8 @@ def Batch.netPuts (b : Batch) (pfx : Bytes) : List (Bytes × Bytes) :=
 
 structure Tx where
   readOnly : Bool
-  db : Store                -- tx.l.ldb: no snapshot is taken; a read transaction sees the store of the moment
+  db : Store                -- tx.r, the `reader` every read goes through: the live store (l.ldb) for a write
+                            -- transaction, the snapshot taken by BeginReadTx for a read-only one
   b : Batch := {}
 
 structure Bucket where
@@ -120,7 +121,7 @@ def indexKey (path : Bytes) : Bytes := join [tag, path]
 
 /-- transaction.bucketExists — the lookup shared by TopLevelBucket / Bucket / FetchBucket and
     the existence test of CreateTopLevelBucket / NewBucket:
-      _, err := ldb.Get(key); exists := err == nil
+      _, err := tx.r.Get(key); exists := err == nil
       if !readOnly { v, deleted := b.Get(key); if deleted { exists = false } else if v != nil { exists = true } } -/
 def Tx.bucketExists (tx : Tx) (key : Bytes) : Bool :=
   let found := (tx.db.get key).isSome
@@ -328,7 +329,8 @@ def Bucket.deleteBucket (tx : Tx) (b : Bucket) (name : Bytes) : Except Err Tx :=
       | .error e => .error e
       | .ok bt => .ok { tx with b := bt }
 
-/-- transaction.Commit (writers): the store after `ldb.Write(tx.b.b)` -/
+/-- transaction.Commit (writers): the store after `ldb.Write(tx.b.b)`; Commit of a read-only
+    transaction is Rollback (it releases the snapshot and writes nothing) -/
 def Tx.commit (tx : Tx) : Store := if tx.readOnly then tx.db else applyLog tx.db tx.b.log
 
 /-- transaction.Rollback, and db.Update when the closure returns an error: the store is untouched -/
@@ -384,10 +386,22 @@ structure LevelIter where
   iterEnd : Bool := false
   batchIter : Option BatchIter := none
 
-/-- levelBucket.NewIterator(&Range{start, limit}); a nil Range is Range{} -/
-def Bucket.newIterator (tx : Tx) (b : Bucket) (start limit : Bytes) : LevelIter :=
+/-- the guard of NewIterator: `if slice.Limit != nil && bytes.Compare(slice.Limit, slice.Start) < 0
+    { slice.Limit = slice.Start }` – an inverted range is made an empty one -/
+def clampLimit (s : Bytes) : Option Bytes → Option Bytes
+  | none => none
+  | some l => if blt l s then some s else some l
+
+/-- the (start, limit) pair NewIterator hands to goleveldb and to the batch iterator -/
+def Bucket.iterBounds (b : Bucket) (start limit : Bytes) : Bytes × Option Bytes :=
   let s := b.innerKeyForIterator start
   let l := if limit.length == 0 then bytesPrefixLimit (b.innerKeyForIterator limit) else some (b.innerKeyForIterator limit)
+  (s, clampLimit s l)
+
+/-- levelBucket.NewIterator(&Range{start, limit}); a nil Range is Range{} -/
+def Bucket.newIterator (tx : Tx) (b : Bucket) (start limit : Bytes) : LevelIter :=
+  let s := (b.iterBounds start limit).1
+  let l := (b.iterBounds start limit).2
   let rng := tx.db.range s l
   { readOnly := tx.readOnly, pathLen := b.pathLen, rng := rng, todo := rng,
     batchIter := if tx.readOnly then none else some (newBatchIterator tx.b s l) }
